@@ -3,4 +3,7 @@ EXTENDS SourceViewConc
 T_small == { <<>>, <<97>>, <<97, 10, 98>>, <<97, 10>> }
 T_more == T_small \cup { <<13, 10>>, <<97, 13, 98, 10, 99>> }
 Pool_small == { [op |-> "get_line", i |-> 0], [op |-> "get_line", i |-> 1], [op |-> "get_line", i |-> 2], [op |-> "line_count", i |-> 0] }
+T_one == { <<97, 10, 98>> }
+Pool_clone_small == { [op |-> "get_line", i |-> 1], [op |-> "line_count", i |-> 0], [op |-> "clone", i |-> 0] }
+Pool_clone == Pool_small \cup { [op |-> "clone", i |-> 0] }
 =============================================================================
